@@ -260,7 +260,7 @@ def check_dispatch(c, f, loop):
     c.check(got is not None and (F, False) in got and (M, False) in got, f, rs[0].ast if rs else None, 'second case: function OR method', witness=str(sorted(got or [])), kind='path', tag='case-callable')
     calls_ = [(n, k) for n in g.nodes if n in g.live_nodes() for k in node_calls(n) if eqv(norm(k.func)) == R]
     ok = len(calls_) == 1 and len(calls_[0][1].args) == 1 and norm(calls_[0][1].args[0]) == 'locals()' and isinstance(calls_[0][0].ast, ast.Assign) \
-        and disp(conds(calls_[0][0])) <= {(S, False), (F, True), (M, True)} and (S, False) in conds(calls_[0][0]) \
+        and disp(conds(calls_[0][0])) <= {(S, False), (F, True), (M, True)} \
         and (not rs or g.path(rs[0], calls_[0][0], skip_labels=('exc',)) is None)
     c.check(ok, f, calls_[0][1] if calls_ else None, 'the callback is called once with the state dictionary locals()', kind='path', tag='callback-call')
     if ok:
